@@ -13,6 +13,31 @@ EVID = os.environ.get("VERIF_EVIDENCE_DIR") or os.path.join(VERIF, "evidence")  
 KNOWN = os.path.join(VERIF, "known_findings.json")
 
 
+_WORK = None
+
+
+def _call(i):
+    fn, items = _WORK
+    return fn(*items[i])
+
+
+def pmap(fn, items, procs=None):
+    """run fn(*args) for every args tuple in items on several processes (fork: closures need no pickling);
+    results come back in order"""
+    global _WORK
+    import multiprocessing as mp
+    items = list(items)
+    procs = procs or min(14, max(1, (os.cpu_count() or 2) - 2))
+    if len(items) < 4 or procs <= 1:
+        return [fn(*a) for a in items]
+    _WORK = (fn, items)
+    try:
+        with mp.get_context("fork").Pool(procs) as pool:
+            return pool.map(_call, range(len(items)), chunksize=max(1, len(items) // (procs * 8)))
+    finally:
+        _WORK = None
+
+
 def num(x):
     """float/int -> the decimal string module Num reads (repr round-trips doubles exactly)."""
     if x is None:
